@@ -373,8 +373,9 @@ Unwound(u) ==
             /\ \A i \in DOMAIN u.obs : IterObsOK(u.obs[i])
             /\ UNCHANGED <<life, owed, pool>>
        ELSE \* after a destructor panic: leaks allowed, double drops and stale reads never (C05)
-            LET leftover == OwedIn(OpScope) \cup {e \in op.fl : Live(e)}
-                h1 == IF op.recv # <<>> THEN op.recv[1] ELSE 0
+            LET h1 == IF op.recv # <<>> THEN op.recv[1] ELSE 0
+                \* what the interrupted call still owed (also the skipped elements of nth / nth_back) may leak
+                leftover == OwedIn(OpScope) \cup OwedIn(ValScope(h1)) \cup {e \in op.fl : Live(e)}
                 byref == op.recv # <<>> /\ ~op.byval[1] /\ h1 \in DOMAIN pool
                 win == IF byref /\ u.obs # <<>> THEN u.obs[1].items ELSE <<>>
                 before == IF byref THEN op.srcs[1] ELSE <<>>
@@ -385,7 +386,7 @@ Unwound(u) ==
                          /\ (pool[h1].kind = "iter" => u.obs[1].len = Len(win)))
             /\ life' = [e \in DOMAIN life |->
                           IF e \in (leftover \cup lost) \ SeqRange(win) THEN "abandoned" ELSE life[e]]
-            /\ owed' = Restrict(owed, DOMAIN owed \ (OwedIn(OpScope) \cup SeqRange(win)))
+            /\ owed' = Restrict(owed, DOMAIN owed \ (OwedIn(OpScope) \cup OwedIn(ValScope(h1)) \cup SeqRange(win)))
             /\ pool' = IF byref THEN [pool EXCEPT ![h1].items = win] ELSE pool
     /\ op' = NoOp
     /\ UNCHANGED <<loose, heap, cfg>>
